@@ -112,6 +112,12 @@ class Shared:
                 me.log.append(("consume", world.t, me.cur, cost, r))
                 return r
 
+        if spec.get("falsy"):
+            # a Budget subclass exposing "tokens in use" through __len__: falsy while it reports none, still the configured budget
+            class Spy(Spy):  # noqa: F811
+                def __len__(s):
+                    return 0
+
         self.budget = Spy(max_retries=spec["max"], window_s=spec["window"])
         self.policies = []
         for p in spec["policies"]:
@@ -174,6 +180,20 @@ def run_shared(ctx, spec, rng, viol):
             return sl
 
         # sequential sync calls and interleaved async calls, in the scripted order
+        def mk_abort(c):
+            at = c.get("abort_at")
+            if at is None:
+                return None
+            n = [0]
+
+            def abort_if():
+                n[0] += 1
+                return n[0] > at
+
+            return abort_if
+
+        from redress import AbortRetryError
+
         pending = []
         sched = []
         replay_sched = list(spec.get("_sched") or [])
@@ -184,11 +204,11 @@ def run_shared(ctx, spec, rng, viol):
             if not is_async:
                 sh.cur = cid
                 try:
-                    pol.call(mk_op(cid, c["dur"], False, c.get("by_result", False)), on_metric=sh.metric(cid), sleeper=mk_sleeper(cid, False))
-                except (RuntimeError, RetryExhaustedError):
+                    pol.call(mk_op(cid, c["dur"], False, c.get("by_result", False)), on_metric=sh.metric(cid), sleeper=mk_sleeper(cid, False), abort_if=mk_abort(c))
+                except (RuntimeError, RetryExhaustedError, AbortRetryError):
                     pass
             else:
-                pending.append((cid, pol.call(mk_op(cid, c["dur"], True, c.get("by_result", False)), on_metric=sh.metric(cid), sleeper=mk_sleeper(cid, True))))
+                pending.append((cid, pol.call(mk_op(cid, c["dur"], True, c.get("by_result", False)), on_metric=sh.metric(cid), sleeper=mk_sleeper(cid, True), abort_if=mk_abort(c))))
                 if len(pending) >= c.get("batch", 2):
                     drain(sh, pending, rng, sched, replay_sched)
                     pending = []
@@ -274,6 +294,10 @@ def drain(sh, pending, rng, sched, replay_sched):
             del live[cid]
         except (RuntimeError, RetryExhaustedError):
             del live[cid]
+        except Exception as x:  # noqa: BLE001
+            if type(x).__name__ != "AbortRetryError":
+                raise
+            del live[cid]
     sh.cur = None
 
 
@@ -283,8 +307,9 @@ def gen_shared(rng):
     npol = rng.randint(2, 4)
     pols = [{"async": rng.random() < 0.5, "delay": rng.choice([0.0, G, w / 4, w / 2, w - G, w, w + G]), "max_attempts": rng.randint(2, 5),
              "hint": rng.choice(["bare", "bare", "none", "0.0", "0.5", "30.0"]), "klass": rng.choice(["TRANSIENT", "RATE_LIMIT", "SERVER_ERROR", "UNKNOWN", "CONCURRENCY"])} for _ in range(npol)]
-    calls = [{"policy": rng.randrange(npol), "gap": rng.choice([0.0, 0.0, G, w / 2, w - G, w, w + G]), "dur": rng.choice([0.0, G, w / 4]), "batch": rng.randint(1, 3), "by_result": rng.random() < 0.3} for _ in range(rng.randint(3, 10))]
-    return {"max": mx, "window": w, "policies": pols, "calls": calls}
+    calls = [{"policy": rng.randrange(npol), "gap": rng.choice([0.0, 0.0, G, w / 2, w - G, w, w + G]), "dur": rng.choice([0.0, G, w / 4]), "batch": rng.randint(1, 3), "by_result": rng.random() < 0.3,
+              "abort_at": rng.randint(0, 6) if rng.random() < 0.25 else None} for _ in range(rng.randint(3, 10))]
+    return {"max": mx, "window": w, "policies": pols, "calls": calls, "falsy": rng.random() < 0.25}
 
 
 def work(ctx, tier):
